@@ -17,7 +17,7 @@ Inductive case : Type :=
 | CConsts (which : Z) (a b res : Z)
 | CIsPhys (addr size : Z) (res : bool)
 (* tools.CalcImageOffset on an image whose layout the harness built; returned value and error *)
-| CCalcOff (l : layout) (addr : Z) (r : obs Z)
+| CCalcOff (l : layout) (imglen addr : Z) (r : obs Z)
 (* NodeVisitor.Run over the abstract tree with the rows of NameToRangesMap; ranges handed to the callback *)
 | CWalk (t : tree) (rm : rangemap) (fb : bool) (r : obs (list range))
 (* VolumeOf(MemRanges{unresolve r}) given what the walker reports for the image *)
@@ -54,7 +54,7 @@ Definition check (c : case) : bool :=
        else if which =? 1 then calc_tail_from_phys a
        else calc_offset_from_phys a b) =? res
   | CIsPhys addr size res => Bool.eqb (is_phys_addr addr size) res
-  | CCalcOff l addr r => obs_match Z.eqb r (calc_image_offset l addr)
+  | CCalcOff l n addr r => obs_match Z.eqb r (calc_image_offset l n addr)
   | CWalk t rm fb r => obs_match ranges_eqb r (walk rm fb t)
   | CVolumeOf size nodes q res => obs_match ranges_eqb res (volume_of_one size nodes q)
   | CDigestRefs first ds res => list_eqb orange_eqb res (pcr0_digest_refs first ds)
